@@ -32,6 +32,18 @@ async def app(scope, receive, send):
             m = await receive()
             if m["type"] != "http.request" or not m.get("more_body"):
                 break
+        if scope["path"].startswith("/slow"):
+            import sniffio
+
+            delay = float(scope["query_string"].decode() or "0.3")
+            if sniffio.current_async_library() == "trio":
+                import trio
+
+                await trio.sleep(delay)
+            else:
+                import asyncio
+
+                await asyncio.sleep(delay)
         body = b"pid=%d path=%s" % (os.getpid(), scope["path"].encode())
         await send({"type": "http.response.start", "status": 200, "headers": [(b"content-length", b"%d" % len(body))]})
         await send({"type": "http.response.body", "body": body})
